@@ -18,3 +18,4 @@ def run(ctx):
     atomics.O2(ctx)
     atomics.O3(ctx)
     atomics.M5(ctx)
+    atomics.M6(ctx)
